@@ -77,6 +77,7 @@ func exhaustiveSpace() *exSpace {
 	exOnce.Do(func() {
 		s := &exSpace{}
 		hs := exHops()
+		all2 := int(callflag.All)
 		s.chains = append(s.chains, exChain{}, exChain{leaf: LeafGas})
 		for _, a := range hs {
 			s.chains = append(s.chains, exChain{hops: []Hop{a}})
@@ -90,6 +91,9 @@ func exhaustiveSpace() *exSpace {
 					continue
 				}
 				s.chains = append(s.chains, exChain{hops: []Hop{a, b}})
+			}
+			if a.Kind == HopCall || a.Kind == HopNative {
+				s.chains = append(s.chains, exChain{hops: []Hop{a, {Kind: HopReward, Flags: all2}}})
 			}
 		}
 		k := RefK0
@@ -147,7 +151,7 @@ func (s *exSpace) cell(idx int) (Case, error) {
 			c.Acct = Acct{Ref: posRef(ch.hops, n)}
 		case n == 0:
 			c.Acct = Acct{Ref: RefZero}
-		case ch.hops[n-1].Kind == HopNative:
+		case ch.hops[n-1].Kind == HopNative || ch.hops[n-1].Kind == HopReward:
 			c.Acct = Acct{Ref: RefGAS}
 		default:
 			c.Acct = Acct{Ref: posRef(ch.hops, n-1)}
